@@ -202,13 +202,15 @@ WideScript(n, bases) ==
          AddCall(2, 1, "DW_TAG_variable"),
          SetCall(2, 2, "DW_AT_type", [k |-> "DebugInfoRef", u |-> 1, e |-> bl + 1]),
          SetCall(1, 2, "DW_AT_import", [k |-> "DebugInfoRef", u |-> 2, e |-> 2])>>
+WideFan == /\ c.stage = 0 /\ "n" \notin DOMAIN c
+           /\ \E n \in {21, 24, 40} : \E bases \in WidePatterns(n) : c' = [stage |-> 0, n |-> n, bases |-> bases]
 WideNext ==
-    /\ c.stage = 0
-    /\ \E n \in {21, 24, 40} : \E bases \in WidePatterns(n) :
-         LET v == <<4, 5, 2, 3>>[((n + Cardinality(bases) + Salt) % 4) + 1]
-             w == IF (n + Salt + Cardinality(bases)) % 2 = 0 THEN 4 ELSE 8 IN
-         c' = [stage |-> 1, encs |-> <<Enc(v, w, 8), Enc(5, 12 - w, 4)>>, calls |-> WideScript(n, bases),
-               be |-> (n + Cardinality(bases) + Salt) % 3 = 0, probe |-> "wide"]
+    /\ c.stage = 0 /\ "n" \in DOMAIN c
+    /\ LET n == c.n  bases == c.bases
+           v == <<4, 5, 2, 3>>[((n + Cardinality(bases) + Salt) % 4) + 1]
+           w == IF (n + Salt + Cardinality(bases)) % 2 = 0 THEN 4 ELSE 8 IN
+       c' = [stage |-> 1, encs |-> <<Enc(v, w, 8), Enc(5, 12 - w, 4)>>, calls |-> WideScript(n, bases),
+             be |-> (n + Cardinality(bases) + Salt) % 3 = 0, probe |-> "wide"]
 
 -----------------------------------------------------------------------------
 (* Mode "builder": c = [stage, encs, calls, ns (structure calls), nm (modifier calls), last] *)
@@ -267,7 +269,7 @@ Init == c = IF Mode = "kinds" THEN [stage |-> -1]
             ELSE IF Mode = "wide" THEN [stage |-> 0]
             ELSE [stage |-> 0, phase |-> "S", calls |-> <<>>, ns |-> 0, nm |-> 0, nu |-> 1]
 Next == IF Mode = "kinds" THEN KindsFan \/ KindsNext \/ BadNext \/ Bad3Next
-        ELSE IF Mode = "wide" THEN WideNext
+        ELSE IF Mode = "wide" THEN WideFan \/ WideNext
         ELSE StructNext \/ ToMods \/ ModNext \/ BuilderFinish \/ SetUnits
 
 -----------------------------------------------------------------------------
